@@ -873,7 +873,7 @@ class Exec:
         c = const_of(v)
         if c is not _NOCONST:
             return [(bool(c), st)]
-        if v == CBV or nonempty(v) or v in self.fns:
+        if v == CBV or nonempty(v) or v in self.fns or v.startswith("__obj_"):
             return [(True, st)]
         n = P(v)
         if isinstance(n, (ast.List, ast.Tuple, ast.Set)) and n.elts or isinstance(n, ast.Dict) and n.keys:
@@ -888,7 +888,7 @@ class Exec:
         cl, cr = const_of(l), const_of(r)
         if isinstance(op, (ast.Is, ast.IsNot)):
             res = None
-            if cl is not _NOCONST and cr is not _NOCONST and (cl is None or cr is None or isinstance(cl, bool) or isinstance(cr, bool)):
+            if cl is not _NOCONST and cr is not _NOCONST and (cl is None or cr is None or isinstance(cl, bool) or isinstance(cr, bool) or cl is Ellipsis or cr is Ellipsis):
                 res = cl is cr
             elif (cr is None or isinstance(cr, bool)) and cr is not _NOCONST and (l in (CBV, SELF) or nonempty(l) or l in self.fns or cl is not _NOCONST):
                 res = False
@@ -898,8 +898,24 @@ class Exec:
                 res = True
             elif (cl is not _NOCONST and self._is_sentinel(r, fr)) or (cr is not _NOCONST and self._is_sentinel(l, fr)):
                 res = False  # a constant is never a module-level sentinel object
+            elif l == r and self._sentinel_kind(l, fr) is not None:
+                res = True  # the sentinel itself reached the comparison (e.g. through a local that was assigned it)
+            elif l.startswith("__obj_") and r.startswith("__obj_") and P(l).__class__ is ast.Name and P(r).__class__ is ast.Name:
+                res = False  # two marker objects created at different places
+            elif (self._sentinel_kind(r, fr) is not None and self._not_the_sentinel(l, r, fr)) or (self._sentinel_kind(l, fr) is not None and self._not_the_sentinel(r, l, fr)):
+                res = False
             if res is not None:
                 return [(res == isinstance(op, ast.Is), st)]
+        elif isinstance(op, (ast.Eq, ast.NotEq)) and (cl is _NOCONST or cr is _NOCONST) and (self._plain_sentinel(l, fr) or self._plain_sentinel(r, fr)):
+            # == with a sentinel whose class defines no __eq__: a builtin value answers NotImplemented for the foreign
+            # type, the comparison falls back to identity
+            res = None
+            if l == r:
+                res = True
+            elif (self._plain_sentinel(r, fr) and self._builtin_value(l, fr)) or (self._plain_sentinel(l, fr) and self._builtin_value(r, fr)):
+                res = False
+            if res is not None:
+                return [(res == isinstance(op, ast.Eq), st)]
         elif cl is not _NOCONST and cr is not _NOCONST:
             try:
                 res = {
@@ -934,6 +950,102 @@ class Exec:
             v = v[-1] if v else None
         return isinstance(v, ast.Call)
 
+    def _sentinel_kind(self, term: str, fr: Frame) -> str | None:
+        """the term denotes an object that serves as a marker and is told apart by identity: 'private' for a
+        module-level sentinel of the package (see _sentinel_class) and for an ``object()`` created in the function
+        itself (one token per creation site), 'public' for the Ellipsis constant; None otherwise."""
+        if term == "...":
+            return "public"
+        if term.startswith("__obj_") or self._sentinel_class(term, fr) is not None:
+            return "private"
+        return None
+
+    def _sentinel_class(self, term: str, fr: Frame) -> ClassInfo | str | None:
+        """the term names a module-level object of the package that is bound once, to ``K()`` with K a package class
+        deriving from no builtin type (``_missing = _Missing()``): the class of that object ('object' for a
+        module-level ``object()``)."""
+        if not re.match(r"^[A-Za-z_]\w*$", term) or fr.module is None:
+            return None
+        tgt = self.repo.resolve(fr.module, term)
+        if not tgt or not tgt.startswith("werkzeug"):
+            return None
+        mn, _, nm = tgt.rpartition(".")
+        m = self.repo.modules.get(mn)
+        vs = getattr(m, "assigns", {}).get(nm) if m is not None else None
+        if not isinstance(vs, list) or len(vs) != 1 or not isinstance(vs[0], ast.Call) or vs[0].args or vs[0].keywords:
+            return None
+        d = dotted(vs[0].func)
+        kt = self.repo.resolve(m, d) if d else None
+        if kt == "builtins.object":
+            return "object"
+        k = self.repo.try_cls(kt) if kt and kt.startswith("werkzeug") else None
+        if k is None or "__new__" in k.methods:
+            return None
+        try:
+            mro = self.repo.mro(k)
+        except AnalysisError:
+            return None
+        if any(isinstance(b, BuiltinClass) and b.fq != "builtins.object" for b in mro):
+            return None
+        return k
+
+    def _plain_sentinel(self, term: str, fr: Frame) -> bool:
+        """a sentinel (see _sentinel_kind) whose class leaves == / != to object (identity)."""
+        if term == "..." or term.startswith("__obj_"):
+            return True
+        k = self._sentinel_class(term, fr)
+        if k is None:
+            return False
+        if isinstance(k, str):
+            return True
+        return not any(isinstance(b, ClassInfo) and ("__eq__" in b.methods or "__ne__" in b.methods) for b in self.repo.mro(k))
+
+    # operations that hand back something that was stored / passed in earlier (possibly the sentinel itself)
+    _ELEMENT_READS = {"get", "pop", "setdefault", "popitem", "popleft", "__getitem__", "__next__", "send", "getlist", "get_all", "poplist", "popitemlist"}
+    _ELEMENT_FUNCS = {"getattr", "next", "min", "max", "vars", "iter", "reversed", "sorted", "cast", "copy", "deepcopy", "super", "partial"}
+
+    def _not_the_sentinel(self, term: str, sentinel: str, fr: Frame) -> bool:
+        """the value of ``term`` is certainly not the module-level sentinel object named ``sentinel``: identity with a
+        sentinel is decided by which binding reached the comparison.  True for an instance of a builtin value type
+        (str(x), a display, a comparison ...: the sentinel's class derives from no builtin type) and for the result
+        of a call that is neither handed the sentinel nor reads an element back out of a container / iterator /
+        attribute: a private sentinel gets into a value only by being named (ASSUMPTION of the rules that use this
+        executor: functions and methods of other objects do not return the package's private sentinel objects)."""
+        if self._builtin_value(term, fr):
+            return True
+        n = P(term)
+        if isinstance(n, ast.IfExp):
+            return all(self._not_the_sentinel(text(x), sentinel, fr) for x in (n.body, n.orelse))
+        if sentinel == "...":
+            return False  # a public object: any function may return it
+        if not isinstance(n, ast.Call) or re.search(r"(?<![\w.])" + re.escape(sentinel) + r"(?!\w)", term):
+            return False
+        f = n.func
+        if isinstance(f, ast.Attribute):
+            return f.attr not in self._ELEMENT_READS and not f.attr.startswith("__")
+        if isinstance(f, ast.Name):
+            return f.id not in self._ELEMENT_FUNCS and not f.id.startswith("__stub") and not f.id.startswith("__result_of")
+        return False
+
+    _VALUE_BUILTINS = {"str", "int", "float", "bool", "bytes", "repr", "len", "tuple", "list", "dict", "set", "frozenset", "format", "ascii", "chr", "hex", "hash", "id"}
+
+    def _builtin_value(self, term: str, fr: Frame) -> bool:
+        """the term evaluates to an instance of a builtin value type whatever its operands are: a constant, a display,
+        a comprehension, an f-string, a comparison / negation, or a call of a builtin constructor / function that
+        returns one (the name resolved in the module: not shadowed)."""
+        if nonempty(term) or const_of(term) is not _NOCONST:
+            return True
+        n = P(term)
+        if isinstance(n, (ast.JoinedStr, ast.List, ast.Tuple, ast.Dict, ast.Set, ast.ListComp, ast.SetComp, ast.DictComp, ast.Compare)):
+            return True
+        if isinstance(n, ast.UnaryOp) and isinstance(n.op, ast.Not):
+            return True
+        if isinstance(n, ast.IfExp):
+            return self._builtin_value(text(n.body), fr) and self._builtin_value(text(n.orelse), fr)
+        if isinstance(n, ast.Call) and isinstance(n.func, ast.Name) and n.func.id in self._VALUE_BUILTINS and fr.module is not None:
+            return self.repo.resolve(fr.module, n.func.id) == f"builtins.{n.func.id}"
+        return False
+
     def _fold(self, e: ast.AST, fr: Frame):
         """value of a module-level constant expression (wzsa.fold)."""
         if not isinstance(e, (ast.Name, ast.Attribute)) or fr.module is None:
@@ -961,7 +1073,7 @@ class Exec:
     def ev(self, e: ast.AST, st: St, fr: Frame) -> list[tuple[str, St]]:
         """value terms of an expression (several when calls / conditions fork); calls are followed, events emitted."""
         if isinstance(e, ast.Constant):
-            return [(repr(e.value) if not isinstance(e.value, (bytes,)) else repr(e.value), st)]
+            return [("..." if e.value is Ellipsis else repr(e.value), st)]
         if isinstance(e, ast.Name):
             if e.id in st.env:
                 return [(st.env[e.id], st)]
@@ -1209,6 +1321,9 @@ class Exec:
         head = fv
         if head == "super":
             return [(SUPER, st)]
+        if head == "object" and not args and not kwargs and fr.module is not None and repo.resolve(fr.module, "object") == "builtins.object":
+            # a fresh marker object: one token per creation site, told apart by identity
+            return [(f"__obj_L{getattr(e, 'lineno', 0)}c{getattr(e, 'col_offset', 0)}__", st)]
         if head in PASS_THROUGH or head.rsplit(".", 1)[-1] in PASS_THROUGH:
             i = PASS_THROUGH[head.rsplit(".", 1)[-1]]
             if i < len(args):
